@@ -116,7 +116,7 @@ let show_state (w : world) =
     match o with
     | None -> Buffer.add_string buf (Printf.sprintf " I%d:-" i)
     | Some it ->
-      let own = match it.iown with Some t -> string_of_int (int_of_nat t) | None -> "x" in
+      let own = if it.inoreg then "u" else match it.iown with Some t -> string_of_int (int_of_nat t) | None -> "x" in
       let ck = match it.iown, it.icookie with
         | Some t, Some c -> (match key_of_opt (gett w t) (Some c) with Some k -> string_of_int (int_of_z k) | None -> "?")
         | None, Some _ -> "?"
